@@ -12,8 +12,9 @@ Local Open Scope list_scope.
 (* ================================================================== *)
 
 Section All2.
-  Variable f : pyval -> pyval -> bool.
-  Fixpoint all2 (xs ys : list pyval) : bool :=
+  Context {A : Type}.
+  Variable f : A -> A -> bool.
+  Fixpoint all2 (xs ys : list A) : bool :=
     match xs, ys with
     | [], [] => true
     | x :: xs', y :: ys' => f x y && all2 xs' ys'
@@ -613,7 +614,7 @@ Qed.
 (** * all2 / deq: generic order-theoretic facts                         *)
 (* ================================================================== *)
 
-Lemma all2_refl_in : forall (E : pyval -> pyval -> bool) l,
+Lemma all2_refl_in {A} : forall (E : A -> A -> bool) l,
   (forall x, In x l -> E x x = true) -> all2 E l l = true.
 Proof.
   induction l as [|x l IH]; intro H; [reflexivity|].
@@ -621,7 +622,7 @@ Proof.
   intros; apply H; right; assumption.
 Qed.
 
-Lemma all2_flip_in : forall (E1 E2 : pyval -> pyval -> bool) l1 l2,
+Lemma all2_flip_in {A} : forall (E1 E2 : A -> A -> bool) l1 l2,
   (forall x y, In x l1 -> In y l2 -> E1 x y = E2 y x) -> all2 E1 l1 l2 = all2 E2 l2 l1.
 Proof.
   induction l1 as [|x l1 IH]; destruct l2 as [|y l2]; intro H; try reflexivity.
@@ -629,7 +630,7 @@ Proof.
   intros; apply H; right; assumption.
 Qed.
 
-Lemma all2_ext_in : forall (E1 E2 : pyval -> pyval -> bool) l1 l2,
+Lemma all2_ext_in {A} : forall (E1 E2 : A -> A -> bool) l1 l2,
   (forall x y, In x l1 -> In y l2 -> E1 x y = E2 x y) -> all2 E1 l1 l2 = all2 E2 l1 l2.
 Proof.
   induction l1 as [|x l1 IH]; destruct l2 as [|y l2]; intro H; try reflexivity.
@@ -637,7 +638,7 @@ Proof.
   intros; apply H; right; assumption.
 Qed.
 
-Lemma all2_trans_in : forall (E : pyval -> pyval -> bool) l1 l2 l3,
+Lemma all2_trans_in {A} : forall (E : A -> A -> bool) l1 l2 l3,
   (forall x y z, In x l1 -> In y l2 -> In z l3 ->
                  E x y = true -> E y z = true -> E x z = true) ->
   all2 E l1 l2 = true -> all2 E l2 l3 = true -> all2 E l1 l3 = true.
@@ -888,4 +889,534 @@ Proof.
     apply deq_refl_in; [assumption|]. intros k v Hin.
     rewrite Forall_forall in H. destruct (H _ Hin) as [_ Hsnd]. apply Hsnd.
     eapply forallb_snd_In in Hv; eauto.
+Qed.
+
+(* ================================================================== *)
+(** * 7. symmetry                                                       *)
+(* ================================================================== *)
+
+Definition sym_at (x : pyval) : Prop :=
+  forall b, sanitized_gen true x = true -> sanitized_gen true b = true ->
+            is_equal x b = is_equal b x.
+
+Lemma seq_sym_aux : forall l l',
+  Forall sym_at l ->
+  forallb (sanitized_gen true) l = true -> forallb (sanitized_gen true) l' = true ->
+  all2 is_equal l l' = all2 is_equal l' l.
+Proof.
+  intros l l' H Hs Hs'. apply all2_flip_in. intros x y Hx Hy.
+  rewrite Forall_forall in H. rewrite forallb_forall in Hs, Hs'.
+  apply H; auto.
+Qed.
+
+Theorem is_equal_sym : forall a b,
+  sanitized_t a = true -> sanitized_t b = true -> is_equal a b = is_equal b a.
+Proof.
+  unfold sanitized_t.
+  induction a using pyval_ind'; intros b0 Ha Hb.
+  - destruct b0; reflexivity.
+  - destruct b0; try reflexivity. cbn. apply bool_eqb_sym.
+  - destruct b0; try reflexivity. cbn. apply Z.eqb_sym.
+  - destruct b0; try reflexivity. cbn. apply fl_eqb_sym.
+  - destruct b0; try reflexivity. cbn. apply String.eqb_sym.
+  - rewrite is_equal_list_eq. rewrite sanitized_gen_list in Ha.
+    destruct b0; try reflexivity.
+    + rewrite is_equal_list_eq. cbn [seq_eqn]. rewrite sanitized_gen_list in Hb.
+      apply seq_sym_aux; assumption.
+    + rewrite is_equal_tuple_eq. cbn [seq_eqn]. rewrite sanitized_gen_tuple in Hb.
+      apply seq_sym_aux; assumption.
+  - rewrite is_equal_tuple_eq. rewrite sanitized_gen_tuple in Ha. cbn [andb] in Ha.
+    destruct b0; try reflexivity.
+    + rewrite is_equal_list_eq. cbn [seq_eqn]. rewrite sanitized_gen_list in Hb.
+      apply seq_sym_aux; assumption.
+    + rewrite is_equal_tuple_eq. cbn [seq_eqn]. rewrite sanitized_gen_tuple in Hb.
+      apply seq_sym_aux; assumption.
+  - rewrite is_equal_dict_eq. destruct b0; try reflexivity.
+    rewrite is_equal_dict_eq. cbn [dict_eqn].
+    apply sanitized_gen_dict_wfd in Ha. destruct Ha as [W1 V1].
+    apply sanitized_gen_dict_wfd in Hb. destruct Hb as [W2 V2].
+    apply deq_sym_eq; try assumption.
+    intros k v k' v' Hin Hin'. rewrite Forall_forall in H.
+    destruct (H _ Hin) as [_ Hsnd]. apply Hsnd.
+    + eapply forallb_snd_In in V1; eauto.
+    + eapply forallb_snd_In in V2; eauto.
+  - discriminate.
+Qed.
+
+(* ================================================================== *)
+(** * 8. transitivity                                                   *)
+(* ================================================================== *)
+
+Definition trans_at (x : pyval) : Prop :=
+  forall b c,
+    sanitized_gen true x = true -> sanitized_gen true b = true -> sanitized_gen true c = true ->
+    pv_wf x = true -> pv_wf b = true -> pv_wf c = true ->
+    is_equal x b = true -> is_equal b c = true -> is_equal x c = true.
+
+Lemma seq_all2_trans : forall l l' l'',
+  Forall trans_at l ->
+  forallb (sanitized_gen true) l = true -> forallb (sanitized_gen true) l' = true ->
+  forallb (sanitized_gen true) l'' = true ->
+  forallb pv_wf l = true -> forallb pv_wf l' = true -> forallb pv_wf l'' = true ->
+  all2 is_equal l l' = true -> all2 is_equal l' l'' = true -> all2 is_equal l l'' = true.
+Proof.
+  intros l l' l'' H S1 S2 S3 W1 W2 W3. apply all2_trans_in.
+  rewrite Forall_forall in H. rewrite forallb_forall in *.
+  intros x y z Hx Hy Hz. apply H; auto.
+Qed.
+
+Lemma seq_trans_aux : forall l b c,
+  Forall trans_at l ->
+  forallb (sanitized_gen true) l = true -> sanitized_gen true b = true ->
+  sanitized_gen true c = true ->
+  forallb pv_wf l = true -> pv_wf b = true -> pv_wf c = true ->
+  seq_eqn l b = true -> is_equal b c = true -> seq_eqn l c = true.
+Proof.
+  intros l b c H S1 S2 S3 W1 W2 W3 Hab Hbc.
+  destruct b; cbn [seq_eqn] in Hab; try discriminate.
+  - rewrite is_equal_list_eq in Hbc. rewrite sanitized_gen_list in S2. rewrite pv_wf_list in W2.
+    destruct c; cbn [seq_eqn] in Hbc |- *; try discriminate.
+    + rewrite sanitized_gen_list in S3. rewrite pv_wf_list in W3.
+      eapply seq_all2_trans; [exact H| | | | | | | exact Hab | exact Hbc]; assumption.
+    + rewrite sanitized_gen_tuple in S3. rewrite pv_wf_tuple in W3.
+      eapply seq_all2_trans; [exact H| | | | | | | exact Hab | exact Hbc]; assumption.
+  - rewrite is_equal_tuple_eq in Hbc. rewrite sanitized_gen_tuple in S2. rewrite pv_wf_tuple in W2.
+    cbn [andb] in S2.
+    destruct c; cbn [seq_eqn] in Hbc |- *; try discriminate.
+    + rewrite sanitized_gen_list in S3. rewrite pv_wf_list in W3.
+      eapply seq_all2_trans; [exact H| | | | | | | exact Hab | exact Hbc]; assumption.
+    + rewrite sanitized_gen_tuple in S3. rewrite pv_wf_tuple in W3.
+      eapply seq_all2_trans; [exact H| | | | | | | exact Hab | exact Hbc]; assumption.
+Qed.
+
+Lemma forallb_wf_snd : forall d,
+  forallb (fun kv => pv_wf (fst kv) && pv_wf (snd kv))%bool d = true ->
+  forallb (fun kv => pv_wf (snd kv)) d = true.
+Proof.
+  intros d H. rewrite forallb_forall in *. intros x Hx. specialize (H x Hx).
+  apply andb_true_iff in H. tauto.
+Qed.
+
+Theorem is_equal_trans : forall a b c,
+  sanitized_t a = true -> sanitized_t b = true -> sanitized_t c = true ->
+  pv_wf a = true -> pv_wf b = true -> pv_wf c = true ->
+  is_equal a b = true -> is_equal b c = true -> is_equal a c = true.
+Proof.
+  unfold sanitized_t.
+  induction a using pyval_ind'; intros b0 c Sa Sb Sc Wa Wb Wc Hab Hbc.
+  - (* None *) destruct b0; try (cbn in Hab; discriminate). exact Hbc.
+  - (* Bool *) destruct b0; try (cbn in Hab; discriminate).
+    cbn in Hab. apply eqb_prop in Hab. subst. exact Hbc.
+  - (* Int *) destruct b0; try (cbn in Hab; discriminate).
+    + cbn in Hab. apply Z.eqb_eq in Hab. subst. exact Hbc.
+    + change (int_fl_eqb z f = true) in Hab.
+      destruct c; try (cbn in Hbc; discriminate).
+      * change (int_fl_eqb z0 f = true) in Hbc.
+        change ((z =? z0)%Z = true). apply Z.eqb_eq. eapply int_fl_eqb_inj; eauto.
+      * change (fl_eqb f f0 = true) in Hbc. change (int_fl_eqb z f0 = true).
+        rewrite <- (int_fl_eqb_fl_eqb z f f0 Hbc). exact Hab.
+  - (* Float *) destruct b0; try (cbn in Hab; discriminate).
+    + change (int_fl_eqb z f = true) in Hab.
+      destruct c; try (cbn in Hbc; discriminate).
+      * change ((z =? z0)%Z = true) in Hbc. apply Z.eqb_eq in Hbc. subst. exact Hab.
+      * change (int_fl_eqb z f0 = true) in Hbc. change (fl_eqb f f0 = true).
+        eapply int_fl_eqb_fl_unique; eauto.
+    + change (fl_eqb f f0 = true) in Hab.
+      destruct c; try (cbn in Hbc; discriminate).
+      * change (int_fl_eqb z f0 = true) in Hbc. change (int_fl_eqb z f = true).
+        rewrite (int_fl_eqb_fl_eqb z f f0 Hab). exact Hbc.
+      * change (fl_eqb f0 f1 = true) in Hbc. change (fl_eqb f f1 = true).
+        eapply fl_eqb_trans; eauto.
+  - (* Str *) destruct b0; try (cbn in Hab; discriminate).
+    cbn in Hab. apply String.eqb_eq in Hab. subst. exact Hbc.
+  - (* List *) rewrite is_equal_list_eq in Hab. rewrite is_equal_list_eq.
+    rewrite sanitized_gen_list in Sa. rewrite pv_wf_list in Wa.
+    exact (seq_trans_aux l b0 c H Sa Sb Sc Wa Wb Wc Hab Hbc).
+  - (* Tuple *) rewrite is_equal_tuple_eq in Hab. rewrite is_equal_tuple_eq.
+    rewrite sanitized_gen_tuple in Sa. cbn [andb] in Sa. rewrite pv_wf_tuple in Wa.
+    exact (seq_trans_aux l b0 c H Sa Sb Sc Wa Wb Wc Hab Hbc).
+  - (* Dict *) rewrite is_equal_dict_eq in Hab. rewrite is_equal_dict_eq.
+    destruct b0; cbn [dict_eqn] in Hab; try discriminate.
+    rewrite is_equal_dict_eq in Hbc.
+    destruct c; cbn [dict_eqn] in Hbc |- *; try discriminate.
+    apply sanitized_gen_dict_wfd in Sa. destruct Sa as [[P1 N1] V1].
+    apply sanitized_gen_dict_wfd in Sb. destruct Sb as [[P2 N2] V2].
+    apply sanitized_gen_dict_wfd in Sc. destruct Sc as [[P3 N3] V3].
+    rewrite pv_wf_dict in Wa, Wb, Wc.
+    apply forallb_wf_snd in Wa. apply forallb_wf_snd in Wb. apply forallb_wf_snd in Wc.
+    eapply deq_trans_in; [exact P1 | | exact Hab | exact Hbc].
+    intros k v k' v' k'' v'' Hin Hin' Hin''.
+    rewrite Forall_forall in H. destruct (H _ Hin) as [_ Hsnd]. apply Hsnd.
+    + eapply forallb_snd_In in V1; eauto.
+    + eapply forallb_snd_In in V2; eauto.
+    + eapply forallb_snd_In in V3; eauto.
+    + eapply forallb_snd_In in Wa; eauto.
+    + eapply forallb_snd_In in Wb; eauto.
+    + eapply forallb_snd_In in Wc; eauto.
+  - discriminate.
+Qed.
+
+(* ================================================================== *)
+(** * The order on strings                                              *)
+(* ================================================================== *)
+
+Lemma str_ltb_irrefl : forall a, str_ltb a a = false.
+Proof.
+  induction a as [|c a IH]; cbn [str_ltb]; [reflexivity|].
+  rewrite Nat.ltb_irrefl. exact IH.
+Qed.
+
+Lemma str_ltb_trans : forall a b c,
+  str_ltb a b = true -> str_ltb b c = true -> str_ltb a c = true.
+Proof.
+  induction a as [|x a IH]; destruct b as [|y b]; destruct c as [|z c];
+    cbn [str_ltb]; try discriminate; try reflexivity.
+  destruct (Nat.ltb_spec (nat_of_ascii x) (nat_of_ascii y));
+  destruct (Nat.ltb_spec (nat_of_ascii y) (nat_of_ascii x));
+  destruct (Nat.ltb_spec (nat_of_ascii y) (nat_of_ascii z));
+  destruct (Nat.ltb_spec (nat_of_ascii z) (nat_of_ascii y));
+  destruct (Nat.ltb_spec (nat_of_ascii x) (nat_of_ascii z));
+  destruct (Nat.ltb_spec (nat_of_ascii z) (nat_of_ascii x));
+  try discriminate; try reflexivity; try lia.
+  apply IH.
+Qed.
+
+Lemma str_ltb_asym : forall a b, str_ltb a b = true -> str_ltb b a = true -> False.
+Proof.
+  intros a b H1 H2. pose proof (str_ltb_trans _ _ _ H1 H2) as H.
+  rewrite str_ltb_irrefl in H. discriminate.
+Qed.
+
+Lemma str_ltb_tricho : forall a b, str_ltb a b = false -> str_ltb b a = false -> a = b.
+Proof.
+  induction a as [|x a IH]; destruct b as [|y b]; cbn [str_ltb];
+    try discriminate; try reflexivity.
+  destruct (Nat.ltb_spec (nat_of_ascii x) (nat_of_ascii y));
+  destruct (Nat.ltb_spec (nat_of_ascii y) (nat_of_ascii x));
+    try discriminate; try lia.
+  intros H1 H2. rewrite (IH b H1 H2).
+  assert (E : nat_of_ascii x = nat_of_ascii y) by lia.
+  rewrite <- (ascii_nat_embedding x), <- (ascii_nat_embedding y), E. reflexivity.
+Qed.
+
+(* ================================================================== *)
+(** * Insertion sort of items by key                                    *)
+(* ================================================================== *)
+
+Definition kk (kv : pyval * pyval) : string := key_str (fst kv).
+Definition lebk (a b : pyval * pyval) : bool := str_leb (kk a) (kk b).
+
+Lemma sort_items_eq : forall d, sort_items d = sort_by lebk d.
+Proof. reflexivity. Qed.
+
+Lemma insert_by_perm : forall {A} (leb : A -> A -> bool) x l,
+  Permutation (insert_by leb x l) (x :: l).
+Proof.
+  intros A leb x l. induction l as [|y l IH]; cbn [insert_by]; [apply Permutation_refl|].
+  destruct (leb x y); [apply Permutation_refl|].
+  eapply Permutation_trans; [apply perm_skip; exact IH | apply perm_swap].
+Qed.
+
+Lemma sort_by_perm : forall {A} (leb : A -> A -> bool) l, Permutation (sort_by leb l) l.
+Proof.
+  intros A leb l. induction l as [|x l IH]; [apply Permutation_refl|].
+  unfold sort_by in *. cbn [fold_right].
+  eapply Permutation_trans; [apply insert_by_perm | apply perm_skip; exact IH].
+Qed.
+
+Lemma sort_items_perm : forall d, Permutation (sort_items d) d.
+Proof. intro d. apply sort_by_perm. Qed.
+
+Fixpoint ssorted (d : list (pyval * pyval)) : Prop :=
+  match d with
+  | [] => True
+  | x :: r => (forall y, In y r -> str_ltb (kk x) (kk y) = true) /\ ssorted r
+  end.
+
+Lemma keys_kk : forall d s, In s (keys d) <-> exists y, In y d /\ kk y = s.
+Proof.
+  intros d s. unfold keys, kk. rewrite in_map_iff. split; intros [y [H1 H2]]; eauto.
+Qed.
+
+Lemma insert_ssorted : forall x l,
+  ssorted l -> ~ In (kk x) (keys l) -> ssorted (insert_by lebk x l).
+Proof.
+  intros x l. induction l as [|y l IH]; intros Hs Hn.
+  - cbn. split; [intros ? []|exact I].
+  - cbn [insert_by]. destruct Hs as [Hy Hs].
+    assert (Hxy : kk x <> kk y).
+    { intro E. apply Hn. apply keys_kk. exists y. split; [left; reflexivity|auto]. }
+    assert (Hn' : ~ In (kk x) (keys l)).
+    { intro Hin. apply Hn. apply keys_kk in Hin. destruct Hin as [w [Hw1 Hw2]].
+      apply keys_kk. exists w. split; [right; assumption|assumption]. }
+    unfold lebk at 1. unfold str_leb. destruct (str_ltb (kk y) (kk x)) eqn:E; cbn [negb].
+    + (* y < x *) cbn [ssorted]. split; [|apply IH; assumption].
+      intros w Hw. apply (Permutation_in _ (insert_by_perm lebk x l)) in Hw.
+      destruct Hw as [<-|Hw]; [exact E | apply Hy; exact Hw].
+    + (* x < y *)
+      assert (Hlt : str_ltb (kk x) (kk y) = true).
+      { destruct (str_ltb (kk x) (kk y)) eqn:E'; [reflexivity|].
+        exfalso. apply Hxy. apply str_ltb_tricho; assumption. }
+      cbn [ssorted]. split; [|split; assumption].
+      intros w [<-|Hw]; [exact Hlt|].
+      eapply str_ltb_trans; [exact Hlt | apply Hy; exact Hw].
+Qed.
+
+Lemma keys_perm : forall d d', Permutation d d' -> Permutation (keys d) (keys d').
+Proof. intros. unfold keys. apply Permutation_map. assumption. Qed.
+
+Lemma sort_items_ssorted : forall d, NoDup (keys d) -> ssorted (sort_items d).
+Proof.
+  induction d as [|x d IH]; intro Hnd; [exact I|].
+  cbn [keys map] in Hnd. fold (keys d) in Hnd. inversion Hnd as [|? ? Hn Hnd']; subst.
+  change (sort_items (x :: d)) with (insert_by lebk x (sort_items d)).
+  apply insert_ssorted; [apply IH; assumption|].
+  intro Hin. apply Hn.
+  eapply Permutation_in; [apply keys_perm; apply sort_items_perm | exact Hin].
+Qed.
+
+Lemma forallb_perm : forall {A} (f : A -> bool) l l',
+  Permutation l l' -> forallb f l = forallb f l'.
+Proof.
+  intros A f l l' H. induction H; cbn [forallb].
+  - reflexivity.
+  - rewrite IHPermutation. reflexivity.
+  - destruct (f x), (f y); reflexivity.
+  - congruence.
+Qed.
+
+Lemma forallb_ext_in : forall {A} (f g : A -> bool) l,
+  (forall x, In x l -> f x = g x) -> forallb f l = forallb g l.
+Proof.
+  intros A f g l. induction l as [|x l IH]; intro H; [reflexivity|].
+  cbn [forallb]. rewrite H by (left; reflexivity). rewrite IH; [reflexivity|].
+  intros; apply H; right; assumption.
+Qed.
+
+Lemma wfd_perm : forall d d', Permutation d d' -> wfd d -> wfd d'.
+Proof.
+  intros d d' HP [Hp Hn]. split.
+  - unfold allpstr in *. rewrite <- (forallb_perm _ _ _ HP). exact Hp.
+  - eapply Permutation_NoDup; [apply keys_perm; exact HP | exact Hn].
+Qed.
+
+Lemma assoc_get_perm : forall d d' s,
+  wfd d -> Permutation d d' -> assoc_get (PStr s) d = assoc_get (PStr s) d'.
+Proof.
+  intros d d' s W HP. pose proof (wfd_perm _ _ HP W) as W'.
+  destruct W as [Hp Hn]. destruct W' as [Hp' Hn'].
+  destruct (assoc_get (PStr s) d) as [v|] eqn:E.
+  - symmetry. apply assoc_get_In_nodup; try assumption.
+    eapply Permutation_in; [exact HP|]. apply assoc_get_Some_In. exact E.
+  - symmetry. apply assoc_get_notin_None. intro Hin.
+    apply (assoc_get_None_notin _ _ Hp E).
+    eapply Permutation_in; [apply Permutation_sym; apply keys_perm; exact HP | exact Hin].
+Qed.
+
+Lemma deq_perm_l : forall E d1 d1' d2,
+  Permutation d1 d1' -> deq E d1 d2 = deq E d1' d2.
+Proof.
+  intros E d1 d1' d2 HP. unfold deq.
+  rewrite (Permutation_length HP), (forallb_perm _ _ _ HP). reflexivity.
+Qed.
+
+Lemma deq_perm_r : forall E d1 d2 d2',
+  allpstr d1 = true -> wfd d2 -> Permutation d2 d2' -> deq E d1 d2 = deq E d1 d2'.
+Proof.
+  intros E d1 d2 d2' Hp W HP. unfold deq.
+  rewrite (Permutation_length HP). f_equal.
+  apply forallb_ext_in. intros [k v] Hin.
+  destruct (allpstr_In _ _ _ Hp Hin) as [s ->]. cbn [fst snd].
+  rewrite (assoc_get_perm _ _ s W HP). reflexivity.
+Qed.
+
+(* on strictly sorted association lists the pointwise comparison is deq *)
+Lemma sorted_pw_deq : forall (E : pyval -> pyval -> bool) s1 s2,
+  wfd s1 -> wfd s2 -> ssorted s1 -> ssorted s2 ->
+  all2 (fun kv kv' => py_eq (fst kv) (fst kv') && E (snd kv) (snd kv'))%bool s1 s2
+  = deq E s1 s2.
+Proof.
+  intros E. induction s1 as [|[k1 v1] r1 IH]; destruct s2 as [|[k2 v2] r2];
+    intros W1 W2 S1 S2; try reflexivity.
+  pose proof W1 as W1'. pose proof W2 as W2'.
+  destruct W1 as [P1 N1]. destruct W2 as [P2 N2].
+  cbn [allpstr forallb fst] in P1, P2.
+  apply andb_true_iff in P1. destruct P1 as [K1 P1].
+  apply andb_true_iff in P2. destruct P2 as [K2 P2].
+  destruct k1 as [| | | |a| | | |]; try discriminate.
+  destruct k2 as [| | | |b| | | |]; try discriminate.
+  cbn [keys map fst key_str] in N1, N2. fold (keys r1) in N1. fold (keys r2) in N2.
+  inversion N1 as [|? ? Hn1 N1']; subst. inversion N2 as [|? ? Hn2 N2']; subst.
+  destruct S1 as [Hlt1 S1]. destruct S2 as [Hlt2 S2].
+  cbn [all2 fst snd py_eq].
+  destruct (String.eqb a b) eqn:Eab.
+  - apply String.eqb_eq in Eab. subst b.
+    rewrite IH; [| split; assumption | split; assumption | assumption | assumption].
+    unfold deq. cbn [List.length Nat.eqb forallb fst snd].
+    assert (Hext : forallb (fun kv => match assoc_get (fst kv) ((PStr a, v2) :: r2) with
+                                      | Some v' => E (snd kv) v' | None => false end) r1
+                 = forallb (fun kv => match assoc_get (fst kv) r2 with
+                                      | Some v' => E (snd kv) v' | None => false end) r1).
+    { apply forallb_ext_in. intros [k v] Hin.
+      destruct (allpstr_In _ _ _ P1 Hin) as [c ->]. cbn [fst snd assoc_get py_eq].
+      destruct (String.eqb c a) eqn:Eca; [|reflexivity].
+      apply String.eqb_eq in Eca. subst c. specialize (Hlt1 _ Hin).
+      unfold kk in Hlt1. cbn [fst key_str] in Hlt1. rewrite str_ltb_irrefl in Hlt1.
+      discriminate. }
+    rewrite Hext. cbn [assoc_get py_eq]. rewrite String.eqb_refl.
+    destruct (E v1 v2), (Nat.eqb (List.length r1) (List.length r2)); reflexivity.
+  - cbn [andb]. symmetry. apply not_true_is_false. intro H.
+    pose proof (deq_keys_incl _ _ _ (proj1 W1') H) as I12.
+    pose proof (deq_keys_incl_rev _ _ _ W1' H) as I21.
+    assert (Ha : In a (keys ((PStr b, v2) :: r2))) by (apply I12; left; reflexivity).
+    assert (Hb : In b (keys ((PStr a, v1) :: r1))) by (apply I21; left; reflexivity).
+    cbn [keys map fst key_str In] in Ha, Hb. fold (keys r2) in Ha. fold (keys r1) in Hb.
+    destruct Ha as [Ha|Ha]; [subst; rewrite String.eqb_refl in Eab; discriminate|].
+    destruct Hb as [Hb|Hb]; [subst; rewrite String.eqb_refl in Eab; discriminate|].
+    apply keys_kk in Ha. destruct Ha as [y [Hy1 Hy2]].
+    apply keys_kk in Hb. destruct Hb as [w [Hw1 Hw2]].
+    specialize (Hlt2 _ Hy1). specialize (Hlt1 _ Hw1).
+    unfold kk at 1 in Hlt1. unfold kk at 1 in Hlt2. cbn [fst key_str] in Hlt1, Hlt2.
+    rewrite Hy2 in Hlt2. rewrite Hw2 in Hlt1.
+    exact (str_ltb_asym _ _ Hlt1 Hlt2).
+Qed.
+
+(* ================================================================== *)
+(** * to_hashable                                                       *)
+(* ================================================================== *)
+
+Definition hf (kv : pyval * pyval) : pyval * pyval :=
+  match kv with (k_, v_) => (k_, to_hashable v_) end.
+Definition pairf (kv : pyval * pyval) : list pyval := [fst kv; snd kv].
+Definition dict_hash (d : list (pyval * pyval)) : list pyval :=
+  flat_map pairf (sort_items (map hf d)).
+
+Lemma to_hashable_list_eq : forall l,
+  to_hashable (PList l) = PTuple (PInt 0 :: map to_hashable l).
+Proof. reflexivity. Qed.
+
+Lemma to_hashable_dict_eq : forall d, to_hashable (PDict d) = PTuple (dict_hash d).
+Proof. reflexivity. Qed.
+
+Lemma kk_hf : forall x, kk (hf x) = kk x.
+Proof. intros [k v]. reflexivity. Qed.
+
+Lemma insert_by_hf : forall x l,
+  insert_by lebk (hf x) (map hf l) = map hf (insert_by lebk x l).
+Proof.
+  intros x l. induction l as [|y l IH]; [reflexivity|].
+  cbn [map insert_by]. unfold lebk at 1 3. rewrite !kk_hf.
+  destruct (str_leb (kk x) (kk y)); [reflexivity|].
+  rewrite IH. reflexivity.
+Qed.
+
+Lemma sort_items_hf : forall d, sort_items (map hf d) = map hf (sort_items d).
+Proof.
+  induction d as [|x d IH]; [reflexivity|].
+  change (sort_items (map hf (x :: d))) with (insert_by lebk (hf x) (sort_items (map hf d))).
+  change (sort_items (x :: d)) with (insert_by lebk x (sort_items d)).
+  rewrite IH. apply insert_by_hf.
+Qed.
+
+Lemma flat_hf_all2 : forall s1 s2,
+  all2 py_eq (flat_map pairf (map hf s1)) (flat_map pairf (map hf s2))
+  = all2 (fun kv kv' => py_eq (fst kv) (fst kv') &&
+                        py_eq (to_hashable (snd kv)) (to_hashable (snd kv')))%bool s1 s2.
+Proof.
+  induction s1 as [|[k1 v1] r1 IH]; destruct s2 as [|[k2 v2] r2]; try reflexivity.
+  cbn [map hf flat_map pairf fst snd app all2]. rewrite IH.
+  rewrite andb_assoc. reflexivity.
+Qed.
+
+Lemma all2_map : forall {A B} (E : B -> B -> bool) (f : A -> B) l l',
+  all2 E (map f l) (map f l') = all2 (fun x y => E (f x) (f y)) l l'.
+Proof.
+  intros A B E f. induction l as [|x l IH]; destruct l' as [|y l']; try reflexivity.
+  cbn [map all2]. rewrite IH. reflexivity.
+Qed.
+
+Lemma dict_hash_shape : forall d, allpstr d = true ->
+  dict_hash d = [] \/ exists s v r, dict_hash d = PStr s :: v :: r.
+Proof.
+  intros d Hp. unfold dict_hash. rewrite sort_items_hf.
+  assert (Hp' : allpstr (sort_items d) = true).
+  { unfold allpstr in *. rewrite (forallb_perm _ _ _ (sort_items_perm d)). exact Hp. }
+  destruct (sort_items d) as [|[k v] r]; [left; reflexivity|right].
+  cbn [allpstr forallb fst] in Hp'. apply andb_true_iff in Hp'. destruct Hp' as [Hk _].
+  destruct k; try discriminate.
+  cbn [map hf flat_map pairf fst snd app]. eauto.
+Qed.
+
+Lemma shape_vs_int : forall h z t,
+  (h = [] \/ exists s v r, h = PStr s :: v :: r) ->
+  all2 py_eq (PInt z :: t) h = false /\ all2 py_eq h (PInt z :: t) = false.
+Proof.
+  intros h z t [->|[s [v [r ->]]]]; split; reflexivity.
+Qed.
+
+Theorem hashable_iff : forall a b, sanitized a = true -> sanitized b = true ->
+  py_eq (to_hashable a) (to_hashable b) = is_equal a b.
+Proof.
+  unfold sanitized.
+  induction a using pyval_ind'; intros b0 Sa Sb.
+  - (* None *) destruct b0; try reflexivity; try discriminate. destruct b; reflexivity.
+  - (* Bool *) destruct b0; try discriminate; try (destruct b; reflexivity).
+    + destruct b, b0; reflexivity.
+    + (* dict *)
+      apply sanitized_gen_dict_wfd in Sb. destruct Sb as [[Hp _] _].
+      rewrite to_hashable_dict_eq.
+      destruct (shape_vs_int (dict_hash d) (if b then 1 else 2)%Z [] (dict_hash_shape d Hp))
+        as [E1 _].
+      destruct b; cbn [to_hashable py_truth]; rewrite py_eq_tuple_eq; exact E1.
+  - (* Int *) destruct b0; try reflexivity; try discriminate. destruct b; reflexivity.
+  - (* Float *) destruct b0; try reflexivity; try discriminate. destruct b; reflexivity.
+  - (* Str *) destruct b0; try reflexivity; try discriminate. destruct b; reflexivity.
+  - (* List *) rewrite is_equal_list_eq. rewrite sanitized_gen_list in Sa.
+    destruct b0; cbn [seq_eqn]; try reflexivity; try discriminate.
+    + destruct b; reflexivity.
+    + rewrite sanitized_gen_list in Sb.
+      rewrite !to_hashable_list_eq, py_eq_tuple_eq. cbn [all2 py_eq Z.eqb andb].
+      rewrite all2_map. apply all2_ext_in. intros x y Hx Hy.
+      rewrite Forall_forall in H. rewrite forallb_forall in Sa, Sb. apply H; auto.
+    + apply sanitized_gen_dict_wfd in Sb. destruct Sb as [[Hp _] _].
+      rewrite to_hashable_list_eq, to_hashable_dict_eq, py_eq_tuple_eq.
+      apply (shape_vs_int _ _ _ (dict_hash_shape d Hp)).
+  - discriminate.
+  - (* Dict *) rewrite is_equal_dict_eq.
+    apply sanitized_gen_dict_wfd in Sa. destruct Sa as [W1 V1].
+    destruct b0; cbn [dict_eqn]; try reflexivity; try discriminate.
+    + rewrite to_hashable_dict_eq.
+      destruct (shape_vs_int (dict_hash d) (if b then 1 else 2)%Z []
+                  (dict_hash_shape d (proj1 W1))) as [_ E2].
+      destruct b; cbn [to_hashable py_truth]; rewrite py_eq_tuple_eq; exact E2.
+    + rewrite to_hashable_list_eq, to_hashable_dict_eq, py_eq_tuple_eq.
+      apply (shape_vs_int _ _ _ (dict_hash_shape d (proj1 W1))).
+    + apply sanitized_gen_dict_wfd in Sb. destruct Sb as [W2 V2].
+      rewrite !to_hashable_dict_eq, py_eq_tuple_eq. unfold dict_hash.
+      rewrite !sort_items_hf, flat_hf_all2.
+      pose proof (sort_items_perm d) as HP1. pose proof (sort_items_perm d0) as HP2.
+      assert (WS1 : wfd (sort_items d)) by (eapply wfd_perm; [apply Permutation_sym|]; eauto).
+      assert (WS2 : wfd (sort_items d0)) by (eapply wfd_perm; [apply Permutation_sym|]; eauto).
+      rewrite (deq_perm_l is_equal d (sort_items d) d0 (Permutation_sym HP1)).
+      rewrite (deq_perm_r is_equal (sort_items d) d0 (sort_items d0) (proj1 WS1) W2
+                 (Permutation_sym HP2)).
+      rewrite <- (sorted_pw_deq is_equal _ _ WS1 WS2
+                    (sort_items_ssorted d (proj2 W1)) (sort_items_ssorted d0 (proj2 W2))).
+      apply all2_ext_in. intros [k v] [k' v'] Hin Hin'. cbn [fst snd]. f_equal.
+      apply (Permutation_in _ HP1) in Hin. apply (Permutation_in _ HP2) in Hin'.
+      rewrite Forall_forall in H. destruct (H _ Hin) as [_ Hsnd]. apply Hsnd.
+      * eapply forallb_snd_In in V1; eauto.
+      * eapply forallb_snd_In in V2; eauto.
+  - discriminate.
+Qed.
+
+Theorem subbuild_key_iff : forall f1 a1 k1 f2 a2 k2,
+  sanitized a1 = true -> sanitized k1 = true -> sanitized a2 = true -> sanitized k2 = true ->
+  py_eq (to_hashable (PList [PStr f1; a1; k1])) (to_hashable (PList [PStr f2; a2; k2]))
+  = (String.eqb f1 f2 && is_equal a1 a2 && is_equal k1 k2)%bool.
+Proof.
+  intros f1 a1 k1 f2 a2 k2 Sa1 Sk1 Sa2 Sk2.
+  rewrite !to_hashable_list_eq, py_eq_tuple_eq.
+  cbn [map all2]. rewrite (hashable_iff a1 a2 Sa1 Sa2), (hashable_iff k1 k2 Sk1 Sk2).
+  cbn [to_hashable py_eq Z.eqb andb]. rewrite andb_true_r, andb_assoc. reflexivity.
 Qed.
